@@ -15,12 +15,17 @@ structure Flat where
   target : List Nat := []
   deriving Repr
 
+/-- "taken from the clock while the case ran" (the harness prints such a time as NOW). -/
+def nowT : Time := ⟨-1, 0⟩
+
 structure DState where
   flats : List Flat := []
-  rootMeta : Meta := { mode := 0o755, mtime := ⟨0, 0⟩ }
+  sealed : Bool := false       -- `seal` applies the modes and times; before it objects have creation defaults
+  rootMeta : Meta := { mode := 0o755, mtime := nowT }
   extra : List Nat := []       -- inode numbers that have one more link outside the tree
   nextIno : Nat := 1
   blk : Nat := 4096
+  order : List Path := []      -- readdir order as last observed (walk / list)
   deriving Repr
 
 def splitOn47 (bs : List Nat) : Path :=
@@ -83,10 +88,14 @@ def sortBy {α : Type} (lt : α → α → Bool) (l : List α) : List α := l.fo
 def nlinkOf (d : DState) (ino : Nat) : Nat :=
   (d.flats.filter fun f => f.ty != 'd' && f.ino == ino).length + (d.extra.filter (· == ino)).length
 
+def Flat.md (d : DState) (f : Flat) : Meta :=
+  if d.sealed then { mode := f.mode, mtime := f.mtime }
+  else { mode := if f.ty == 'd' then 0o700 else if f.ty == 'l' then 0o777 else 0o600, mtime := nowT }
+
 def Flat.inode (d : DState) (f : Flat) : Inode :=
   { ino := f.ino, nlink := nlinkOf d f.ino,
     ftype := if f.ty == 'f' then .reg else if f.ty == 'l' then .lnk else .fifo,
-    md := { mode := f.mode, mtime := f.mtime },
+    md := f.md d,
     payload := if f.ty == 'f' then .data f.content else if f.ty == 'l' then .target f.target else .none }
 
 /-- Position of a path in the implementation's own emission order (readdir order is
@@ -103,11 +112,11 @@ def buildAt (d : DState) (order : List Path) : Nat → Path → Forest
     let kids := sortBy (fun a b => rank order a.path < rank order b.path) kids
     forestOf (kids.map fun f =>
       (f.path.getLast?.getD [],
-       if f.ty == 'd' then Node.dir { mode := f.mode, mtime := f.mtime } (buildAt d order fuel f.path)
+       if f.ty == 'd' then Node.dir (f.md d) (buildAt d order fuel f.path)
        else Node.leaf (f.inode d)))
 
 def buildTree (d : DState) (order : List Path) : Node :=
-  .dir d.rootMeta (buildAt d order (d.flats.length + 1) [])
+  .dir (if d.sealed then d.rootMeta else { mode := 0o755, mtime := nowT }) (buildAt d order (d.flats.length + 1) [])
 
 /-! ### rendering -/
 
@@ -139,7 +148,7 @@ def sparseMap (blk : Nat) (c : Content) : String :=
 def tyChar : Lnk.FType → String
   | .dir => "d" | .reg => "f" | .lnk => "l" | .fifo => "p" | _ => "o"
 
-def showTime (t : Time) : String := s!"{t.sec}.{t.nsec}"
+def showTime (t : Time) : String := if t.sec == -1 then "NOW" else s!"{t.sec}.{t.nsec}"
 
 def hexOrDash (bs : List Nat) : String := LA.toHex bs
 
@@ -150,7 +159,7 @@ def renderWalkEntry (d : DState) (es : List Entry) (e : Entry) : String :=
   let (c, sp, tg) := match e.payload with
     | .data c =>
       let ok := match d.find e.path with
-        | some f => f.ty == 'f' && f.content == c
+        | some f => f.ty == 'f' && f.content.size == c.size && (c.size == 0 || f.content == c)
         | none => false
       (if ok then "ok" else "BAD", sparseMap d.blk c, "-")
     | .target t => ("-", "-", hexOrDash t)
@@ -168,15 +177,16 @@ def renderSnap (d : DState) (holesKept : Bool) (fs : FS) : String :=
       toString ((sorted.findIdx? fun x => x.2.kind != .dir && x.2.ino == n.ino).getD 0)
     let mt := match n.mtime with
       | some t => showTime t
-      | none => "NOT-RESTORED"
+      | none => "NOW"
     let (sz, c, ex, tg) := match n.kind with
       | .reg c =>
         let ok := match d.find p with
-          | some f => f.ty == 'f' && f.content == c
-          | none => false
+          | some f => if f.ty != 'f' then "?" else if f.content.size != c.size then "BADSIZE"
+                      else if c.size == 0 || f.content == c then "ok" else "BAD"
+          | none => "?"
         let ex := if holesKept then extents d.blk c.size c.segs
                   else if c.size == 0 then [] else [(0, c.size)]
-        (toString c.size, if ok then "ok" else "BAD", showExt ex, "-")
+        (toString c.size, ok, showExt ex, "-")
       | .lnk t => ("0", "-", "-", hexOrDash t)
       | _ => ("0", "-", "-", "-")
     s!"|{hexPath p} {kindChar n.kind} {toOct n.mode} {mt} {g} {sz} {c} {ex} {tg}")
@@ -210,9 +220,16 @@ def normEntry (f : Fmt) (e : Entry) : Option Entry :=
 
 def hasFlag (s : String) (c : Char) : Bool := s.toList.contains c
 
+/-- The entry list the extracting side reads back for format `fmt`. -/
+def archiveOf (fmt : String) (es : List Entry) : List Entry :=
+  if fmt == "newc" then cpioArchive .newCpio es
+  else if fmt == "odc" then cpioArchive .oldCpio es
+  else linkify .tar es
+
 def renderSt (l : List St) : String :=
   let n := (l.filter (· == .failed)).length
-  s!"x={if n == 0 then "ok" else "failed"} nfail={n}"
+  -- archive_read_extract2 demotes a failed header to ARCHIVE_WARN
+  s!"x={if n == 0 then "ok" else "warn"} nfail={n}"
 
 /-- Paths listed in an observation line (`|<hexpath> ...|...`), in order. -/
 def obsPaths (obs : String) : List Path :=
@@ -293,23 +310,25 @@ def stepLine (d : DState) (op obs : String) : DState × String :=
     let xa := match w.find? (·.startsWith "xattr=") with
       | some x => (x.drop 6).toString
       | none => "1"
-    let d := { d with blk := blk }
+    let d := { d with blk := blk, sealed := true }
     (d, s!"S blk={blk} xattr={xa}" ++ renderSnap d true (toFS (buildTree d [])))
   | ["walk"] =>
-    let t := buildTree d (obsPaths obs)
+    let d := { d with order := obsPaths obs }
+    let t := buildTree d d.order
     let es := capture t
     (d, "W eof cwd=1" ++ String.join (es.map fun e => "|" ++ renderWalkEntry d es e))
   | ["rt", fmt, flags, uid] =>
     let f := fmtOf fmt
     let o : Opts := { root := uid == "0", perm := hasFlag flags 'p', time := hasFlag flags 't',
                       umask := 0o022, sameOwner := uid == "0" }
-    let es := capture (buildTree d [])
+    let es := capture (buildTree d d.order)
     let kept := es.filterMap (normEntry f)
     let w := if kept.length == es.length then "ok" else "failed"
-    let r := restore o 0o755 (linkify .tar kept)
+    let r := restore o 0o755 (archiveOf fmt kept)
     (d, s!"R w={w} " ++ renderSt r.2 ++ renderSnap d (f.sparse || hasFlag flags 's') r.1)
   | ["cli", tool, fmt, _copts, xopts, uid] =>
-    let f := fmtOf (if fmt == "-" then (if tool == "tar" then "paxr" else "odc") else fmt)
+    let fmt := if fmt == "-" then (if tool == "tar" then "paxr" else "odc") else fmt
+    let f := fmtOf fmt
     let xo := splitComma xopts
     let root := uid == "0"
     let o : Opts :=
@@ -318,9 +337,11 @@ def stepLine (d : DState) (op obs : String) : DState × String :=
       else
         { root := root, perm := true, time := xo.any (fun x => x.startsWith "-" && !x.startsWith "--" && hasFlag x 'm'),
           umask := 0o022, sameOwner := root }
-    let es := capture (buildTree d [])
+    -- bsdtar walks with archive_read_disk; bsdcpio is fed `find .` (depth-first pre-order)
+    let t := buildTree d d.order
+    let es := if tool == "tar" then capture t else t.objects []
     let kept := es.filterMap (normEntry f)
-    let r := restore o 0o755 (linkify .tar kept)
+    let r := restore o 0o755 (archiveOf fmt kept)
     let rc2 := if r.2.all (· == .ok) then "0" else "1"
     (d, s!"C rc=0,{rc2}" ++ renderSnap d (f.sparse || xo.contains "-S") r.1)
   | ["list", _fmt] =>
